@@ -227,6 +227,12 @@ func (c *Context) Mul(d, x, y *Decimal) (Condition, error) {
 	d.Negative = neg
 	d.Form = Finite
 	res := d.setExponent(c, unknownNumDigits, 0, int64(x.Exponent), int64(y.Exponent))
+	if res.SystemOverflow() || res.SystemUnderflow() {
+		// The exponent is outside of the package limits and was not stored. d
+		// still has its previous exponent, which has nothing to do with the
+		// product and must not be rounded.
+		return c.goError(res)
+	}
 	res |= c.round(d, d)
 	return c.goError(res)
 }
